@@ -705,3 +705,46 @@ Proof.
   - rewrite flat_map_concat_map, map_map. simpl.
     induction (seq 0 nb); simpl; [reflexivity|]. rewrite Nat.add_0_r. f_equal. exact IHl.
 Qed.
+
+(* ------------------------------------------------------------------ extent of the Dune traits = sizeof *)
+Lemma roundup_multiple : forall x a, 0 < a -> Nat.modulo x a = 0 -> c07_roundup x a = x.
+Proof.
+  intros x a Ha Hm. unfold c07_roundup. destruct (Nat.eqb_spec a 0); [lia|].
+  apply Nat.mod_divides in Hm; [|lia]. destruct Hm as [q Hq]. subst x.
+  replace (a * q + a - 1) with (q * a + (a - 1)) by lia.
+  rewrite Nat.div_add_l by lia. rewrite Nat.div_small by lia. lia.
+Qed.
+
+(* the traits that end with MPI_Type_create_resized(tmp, 0, sizeof(T)) have extent sizeof(T) for EVERY member type map (members mapped
+   as raw bytes, nested pairs, ...) and every layout; FieldVector / bigunsignedint (struct, not resized) have it when the strictest
+   basic alignment divides displacement + n * extent(K), which is what the measured predicate c07_tm_wfb checks *)
+Lemma P_traits_extent : forall (t1 t2 tG tPLI : c07_tmap) d1 d2 szp da szpli dg dl szip,
+  c07_tm_extent (c07_traits_pair t1 t2 d1 d2 szp) = szp /\
+  c07_tm_extent (c07_traits_plocalindex da szpli) = szpli /\
+  c07_tm_extent (c07_traits_indexpair tG dg dl tPLI szip) = szip.
+Proof. intros; repeat split. Qed.
+
+Lemma P_traits_extent_fv : forall n szk alk dfv nb dbu,
+  (Nat.modulo (dfv + n * szk) (Nat.max 1 alk) = 0 ->
+     c07_tm_extent (c07_traits_fieldvector n (c07_dt_basic szk alk) dfv) = dfv + n * szk) /\
+  (Nat.modulo (dbu + nb * 2) 2 = 0 -> c07_tm_extent (c07_traits_bigunsignedint nb dbu) = dbu + nb * 2).
+Proof.
+  intros. unfold c07_traits_fieldvector, c07_traits_bigunsignedint, c07_dt_struct, c07_dt_contiguous, c07_dt_basic.
+  cbn [c07_tm_extent c07_tm_align fold_left snd fst]. rewrite !Nat.mul_1_l, !Nat.max_0_l.
+  split; intros H; apply roundup_multiple; try lia; assumption.
+Qed.
+
+Lemma P_wfb_extent : forall tm sz, c07_tm_wfb tm sz = true -> c07_tm_extent tm = sz.
+Proof. intros tm sz H. unfold c07_tm_wfb in H. apply andb_true_iff in H. destruct H as [_ H]. now apply Nat.eqb_eq. Qed.
+
+(* why the resize step is needed: the struct of pair<long long,int> alone (long long shipped as 8 raw bytes: alignment 1) has extent 12,
+   not sizeof = 16; the predicate rejects it and a two-element transfer puts the second element at the wrong place *)
+Lemma P_pair_unresized_refuted :
+  let t := c07_dt_struct [(1, 0, c07_traits_generic 8); (1, 8, c07_dt_basic 4 4)] in
+  c07_tm_extent t = 12 /\ c07_tm_wfb t 16 = false /\
+  c07_tm_wfb (c07_traits_pair (c07_traits_generic 8) (c07_dt_basic 4 4) 0 8 16) 16 = true /\
+  exists src dst, c07_transfer t 2 src dst <> c07_spec_transfer (c07_tm_entries t) 16 2 src dst.
+Proof.
+  repeat split; try (vm_compute; reflexivity).
+  exists (map N.of_nat (seq 1 32)), (repeat 165%N 32). vm_compute. discriminate.
+Qed.
